@@ -2,6 +2,7 @@
 // @id C12.cvode_time_bookkeeping
 // @engine B
 // @entry vfh_C12_cvode_restart
+// @shared_state_watch
 // @tier Q
 // @opts budget_s=300
 // @reach cvode.done
